@@ -12,7 +12,7 @@ import ast
 from sa.consir import EnumVal, Expr, N, World, all_nodes, consumption
 from sa.consteval import ConstEval, NotConstant
 from sa.excflow import Escape, IRTypes, Typed, covered, lambda_escapes, scan_path
-from sa.lameval import LamEval
+from sa.lameval import Ctx, LamEval
 from sa.model import Func, Model
 from sa.paths import Engine, Path, loop_paths_at, show_sv, strip_epoch
 from sa.props.c13 import Walker, _after_enter
@@ -63,30 +63,59 @@ def handler_names(M):
 
 
 class ModuleTyping:
-    """parameter kinds of the normaliser functions of one decoder module, propagated from the .parse() roots"""
+    """parameter kinds of the normaliser functions of one decoder module, propagated from the .parse() roots.
 
-    def __init__(self, M, w, T, mod):
+    The propagation is run once per variant of each root grammar (one alternative of a Select at a time), and constant Computed members
+    (the discriminator each variant carries) are evaluated, so that a test or a match on the discriminator -- in whichever function and
+    whichever syntactic form it is made -- selects the branch that variant really takes.  A test that is not decided keeps both branches."""
+
+    def __init__(self, M, w, T, mod, le=None):
         self.M, self.w, self.T, self.mod = M, w, T, mod
+        self.le = le or LamEval(M)
         self.types = {}  # function name -> {param: kind set}
         self.ir = w.module(mod).env
         self.tree = M.mods[mod]
         self.funcs = {s.name: s for s in self.tree.body if isinstance(s, ast.FunctionDef)}
-        work = [f for f in ("decode_frame_content", "decode_notification_body") if f in self.funcs]
-        for f in work:
+        self.menv = None
+        entries = [f for f in ("decode_frame_content", "decode_notification_body") if f in self.funcs]
+        for f in entries:
             self.types[f] = {}
+            roots = set()
+            for c in ast.walk(self.funcs[f]):
+                if isinstance(c, ast.Call) and isinstance(c.func, ast.Attribute) and c.func.attr == "parse" and isinstance(c.func.value, ast.Name) and isinstance(self.ir.get(c.func.value.id), N):
+                    roots |= self.T.result(self.ir[c.func.value.id])
+            for v in sorted(roots, key=repr) or [None]:
+                self.run(f, v)
+
+    def run(self, entry, variant):
+        self.variant = variant
+        types, consts = {entry: {}}, {entry: {}}
+        work = [entry]
         seen = 0
-        while work and seen < 60:
+        while work and seen < 80:
             seen += 1
             f = work.pop()
-            for callee, ptypes in self.flow(self.funcs[f], dict(self.types.get(f, {}))):
-                cur = self.types.setdefault(callee, {})
+            for callee, ptypes, pconsts in self.flow(self.funcs[f], dict(types.get(f, {})), dict(consts.get(f, {}))):
+                cur = types.setdefault(callee, {})
+                curc = consts.setdefault(callee, {})
                 changed = False
                 for k, v in ptypes.items():
                     if not v <= cur.get(k, set()):
                         cur[k] = cur.get(k, set()) | v
                         changed = True
+                for k in list(curc) + list(pconsts):
+                    nv = pconsts.get(k)
+                    old = curc.get(k, "unset")
+                    new = nv if old == "unset" else (None if (old is None or nv is None) else old | nv)
+                    if new != old:
+                        curc[k] = new
+                        changed = True
                 if changed and callee in self.funcs and callee not in work:
                     work.append(callee)
+        for f, pt in types.items():
+            cur = self.types.setdefault(f, {})
+            for k, v in pt.items():
+                cur[k] = cur.get(k, set()) | v
 
     def chain(self, node, env):
         if isinstance(node, ast.Name):
@@ -105,72 +134,140 @@ class ModuleTyping:
         if isinstance(node, ast.Call) and isinstance(node.func, ast.Attribute) and node.func.attr == "parse" and isinstance(node.func.value, ast.Name):
             g = self.ir.get(node.func.value.id)
             if isinstance(g, N):
-                return self.T.result(g)
+                r = self.T.result(g)
+                return {self.variant} if self.variant in r else r
         return None
 
-    def flow(self, fn, env):
-        calls = []
-        origin = {}
+    def const_of(self, node, env, cenv):
+        """the set of constant values the expression can have for this variant (constant Computed members), or None if not known"""
+        if isinstance(node, ast.Name):
+            return cenv.get(node.id)
+        if isinstance(node, ast.Attribute):
+            base = self.chain(node.value, env)
+            if not base:
+                return None
+            vals = set()
+            for k in base:
+                if k[0] != "node":
+                    return None
+                m = self.T.members(k).get(node.attr)
+                if m is None or m.kind != "Computed" or not isinstance(m.a.get("expr"), Expr):
+                    return None
+                e = m.a["expr"]
+                try:
+                    v = self.le.call_lambda(e.node, [Ctx()], e.mod or self.mod, extra=dict(self.le.module_env(e.mod or self.mod)))
+                    hash(v)
+                except Exception:
+                    return None
+                vals.add(v)
+            return vals
+        return None
 
-        def chain_src(node):
-            attrs = []
-            while isinstance(node, ast.Attribute):
-                attrs.append(node.attr)
-                node = node.value
-            if isinstance(node, ast.Name):
-                return node.id, list(reversed(attrs))
+    def literal(self, node):
+        try:
+            if self.menv is None:
+                self.menv = dict(self.le.module_env(self.mod))
+            v = self.le.eval(node, dict(self.menv), self.mod)
+            hash(v)
+            return (v,)
+        except Exception:
             return None
 
-        def block(stmts, env):
+    def decide(self, test, env, cenv):
+        """True / False / None (both ways)"""
+        if isinstance(test, ast.UnaryOp) and isinstance(test.op, ast.Not):
+            d = self.decide(test.operand, env, cenv)
+            return None if d is None else not d
+        if isinstance(test, ast.Compare) and len(test.ops) == 1 and isinstance(test.ops[0], (ast.Eq, ast.NotEq, ast.Is, ast.IsNot)):
+            for x, y in ((test.left, test.comparators[0]), (test.comparators[0], test.left)):
+                vals = self.const_of(x, env, cenv)
+                lit = self.literal(y) if vals is not None else None
+                if vals is not None and lit is not None:
+                    eq = [v == lit[0] for v in vals]
+                    neg = isinstance(test.ops[0], (ast.NotEq, ast.IsNot))
+                    if all(eq):
+                        return not neg
+                    if not any(eq):
+                        return neg
+                    return None
+        return None
+
+    def flow(self, fn, env, cenv):
+        calls = []
+
+        def note_calls(node, env, cenv):
+            for c in ast.walk(node):
+                if isinstance(c, ast.Call) and isinstance(c.func, ast.Name) and c.func.id in self.funcs:
+                    callee = self.funcs[c.func.id]
+                    params = [a.arg for a in callee.args.args]
+                    pt, pc = {}, {}
+                    pairs = list(zip(params, c.args)) + [(k.arg, k.value) for k in c.keywords if k.arg in params]
+                    for pn, a in pairs:
+                        t = self.chain(a, env)
+                        if t is not None:
+                            pt[pn] = set(t)
+                        pc[pn] = self.const_of(a, env, cenv)
+                    calls.append((c.func.id, pt, pc))
+
+        def block(stmts, env, cenv):
             for s in stmts:
                 if isinstance(s, (ast.Assign, ast.AnnAssign)):
                     tgt = s.targets[0] if isinstance(s, ast.Assign) else s.target
                     if isinstance(tgt, ast.Name) and s.value is not None:
                         t = self.chain(s.value, env)
+                        cv = self.const_of(s.value, env, cenv)
                         if t is not None:
                             env[tgt.id] = t
-                        cs = chain_src(s.value)
-                        if cs:
-                            origin[tgt.id] = cs
-                for c in ast.walk(s) if not isinstance(s, ast.If) else []:
-                    if isinstance(c, ast.Call) and isinstance(c.func, ast.Name) and c.func.id in self.funcs:
-                        callee = self.funcs[c.func.id]
-                        params = [a.arg for a in callee.args.args]
-                        pt = {}
-                        for pn, a in zip(params, c.args):
-                            t = self.chain(a, env)
-                            if t is not None:
-                                pt[pn] = set(t)
-                        calls.append((c.func.id, pt))
+                        else:
+                            env.pop(tgt.id, None)
+                        cenv[tgt.id] = cv
                 if isinstance(s, ast.If):
-                    env_t = dict(env)
-                    t = s.test
-                    if isinstance(t, ast.Compare) and len(t.ops) == 1 and isinstance(t.ops[0], ast.Eq) and isinstance(t.left, ast.Name) and isinstance(t.comparators[0], ast.Attribute):
-                        const = t.comparators[0].attr
-                        o = origin.get(t.left.id)
-                        if o and o[0] in env_t:
-                            keep = set()
-                            for k in env_t[o[0]]:
-                                cur = {k}
-                                node = None
-                                for a in o[1]:
-                                    nxt = set()
-                                    for kk in cur:
-                                        if kk[0] == "node":
-                                            m = self.T.members(kk).get(a)
-                                            if m is not None:
-                                                node = m
-                                                nxt |= self.T.result(m)
-                                    cur = nxt
-                                if node is not None and node.kind == "Computed" and isinstance(node.a.get("expr"), Expr) and const in node.a["expr"].src:
-                                    keep.add(k)
-                            env_t[o[0]] = keep
-                    block(s.body, env_t)
-                    block(s.orelse, dict(env))
-                elif isinstance(s, (ast.For, ast.While, ast.Try, ast.With)):
-                    block(getattr(s, "body", []), env)
+                    note_calls(s.test, env, cenv)
+                    d = self.decide(s.test, env, cenv)
+                    if d is not False:
+                        block(s.body, dict(env), dict(cenv))
+                    if d is not True:
+                        block(s.orelse, dict(env), dict(cenv))
+                    if d is True and s.body and isinstance(s.body[-1], (ast.Return, ast.Raise)):
+                        return True
+                elif isinstance(s, ast.Match):
+                    note_calls(s.subject, env, cenv)
+                    vals = self.const_of(s.subject, env, cenv)
+                    remaining = set(vals) if vals is not None else None
+                    for case in s.cases:
+                        pats = case.pattern.patterns if isinstance(case.pattern, ast.MatchOr) else [case.pattern]
+                        lits = [self.literal(p.value) if isinstance(p, ast.MatchValue) else None for p in pats]
+                        wildcard = any(isinstance(p, ast.MatchAs) and p.pattern is None for p in pats)
+                        if remaining is None or case.guard is not None or (not wildcard and any(l is None for l in lits)):
+                            block(case.body, dict(env), dict(cenv))
+                            if remaining is not None and (case.guard is not None or any(l is None for l in lits)):
+                                remaining = None if not wildcard else remaining
+                            continue
+                        hit = set(remaining) if wildcard else {v for v in remaining if any(v == l[0] for l in lits)}
+                        if hit:
+                            block(case.body, dict(env), dict(cenv))
+                            remaining -= hit
+                elif isinstance(s, (ast.For, ast.While, ast.With, ast.AsyncWith)):
+                    for fld in ("iter", "test"):
+                        if getattr(s, fld, None) is not None:
+                            note_calls(getattr(s, fld), env, cenv)
+                    block(s.body, env, cenv)
+                    block(getattr(s, "orelse", []), env, cenv)
+                elif isinstance(s, ast.Try):
+                    block(s.body, env, cenv)
+                    for h in s.handlers:
+                        block(h.body, dict(env), dict(cenv))
+                    block(s.orelse, env, cenv)
+                    block(s.finalbody, env, cenv)
+                elif isinstance(s, (ast.FunctionDef, ast.AsyncFunctionDef, ast.ClassDef)):
+                    pass
+                else:
+                    note_calls(s, env, cenv)
+                    if isinstance(s, (ast.Return, ast.Raise)):
+                        return True
+            return False
 
-        block(fn.body, env)
+        block(fn.body, env, cenv)
         return calls
 
 
